@@ -69,6 +69,21 @@ CHECKS['C10'] = dict(
          'BSP and an enriched copy - not counted as proved.',
     note='trusted: AST effect analysis follows self.<helper>() calls one level; zipfile/lzma; only one BSP layout '
          '(the sample file) is exercised by the bounded tier; BSP.read/save header arithmetic is bounded-only.')
+CHECKS['C01'] = dict(
+    category='proof',
+    technique='contract-based deductive verification: pyvc contracts of Keyvalues._serialise against a recursive text '
+              'specification (modulo indentation), per-iteration lemmas of the Keyvalues.parse token loop over a scripted '
+              'tokenizer model, frame obligations; C02/C03 tokenizer contracts as dependencies; bounded round trips',
+    text='Writer: every path of _serialise (leaf, named block of width 0-3, root, one arbitrary iteration of each child '
+         'loop) emits exactly SER = quoted escape_text(name) [quoted escape_text(value)] / brace lines / the children\'s '
+         'SER, compared after erasing the indentation parameters; serialise() passes the options only into indentation '
+         'and brace lines; _serialise stores nothing into the tree. Parser: from an arbitrary loop state each token '
+         'pattern SER produces (name value NL / name NL / NL / { / }) appends exactly the node with the token\'s exact '
+         'name and value, or pushes / pops the block stack, and is rejected only for a line break in a name. With C02 '
+         '(quoted escape_text(s) tokenizes to STRING s) and C03 (chunk independence) the all-trees round trip is the '
+         'structural induction over the tree - a meta-argument; the bounded tier runs generated trees x options x input '
+         'kinds (str, chunks, characters, file object) on the real code.',
+    note='trusted: C02/C03 tokenizer contracts, the structural induction, StringIO.write appends.')
 CHECKS['C02'] = dict(
     category='proof',
     technique='contract-based deductive verification: pyvc step lemma over the real _handle_string loop body (z3 '
